@@ -38,6 +38,14 @@ def log(*a):
     print("[rv]", *a, file=sys.stderr, flush=True)
 
 
+def dump_json_atomic(path, obj):
+    """Cache files are shared by concurrent runs (other properties, other trees): never expose a half-written file."""
+    tmp = "%s.%d.tmp" % (path, os.getpid())
+    with open(tmp, "w") as f:
+        json.dump(obj, f)
+    os.replace(tmp, path)
+
+
 def ensure_dir(p):
     os.makedirs(p, exist_ok=True)
     return p
@@ -237,7 +245,7 @@ DRIFT_RE = re.compile(r'<<"DRIFT", (\d+), (\d+), "([^"]*)"')
 RACE_RE = re.compile(r'<<"RACE", (\d+), <<"([a-z]+)", "([a-z]+)">>, <<"([a-z]+)", "([a-z]+)">>>>')
 
 
-def validate_trace(trace, module, cfgfile, tag, constants_env=None, parts=None, timeout=1200):
+def validate_trace(trace, module, cfgfile, tag, constants_env=None, parts=None, timeout=1200, cfg_text=None):
     """Run a trace spec over the trace (split over several TLC processes).
     Returns dict(viol=[(prop,pred,line,arena)], drift=[(line,arena,what)], events=n) with GLOBAL 1-based lines."""
     parts = parts or NPROC
@@ -245,12 +253,15 @@ def validate_trace(trace, module, cfgfile, tag, constants_env=None, parts=None, 
     shutil.rmtree(wd, ignore_errors=True)
     ensure_dir(wd)
     files, lines = split_trace(trace, parts, os.path.join(wd, "parts"))
-    shutil.copy(os.path.join(SPEC, cfgfile), os.path.join(wd, cfgfile))
 
     def one(item):
         fn, base = item
         sub = ensure_dir(os.path.join(wd, os.path.basename(fn) + ".d"))
-        shutil.copy(os.path.join(SPEC, cfgfile), os.path.join(sub, cfgfile))
+        if cfg_text is None:
+            shutil.copy(os.path.join(SPEC, cfgfile), os.path.join(sub, cfgfile))
+        else:
+            with open(os.path.join(sub, cfgfile), "w") as f:
+                f.write(cfg_text)
         env = {"TRACE": fn}
         if constants_env:
             env.update(constants_env)
